@@ -491,7 +491,20 @@ pub fn direction(view: &View, world: &World, held: (u64, autosar_data::verif::Lo
 
 /// one edge of a deadlock cycle: what the thread's operation holds (that somebody waits for) and what it waits for.
 /// Behavioural description: operation kind, lock classes and modes, direction in the tree. No code positions.
-pub fn edge_sig(view: &View, world: &World, ops: &HashMap<u32, Op>, t: &DlThread) -> Option<String> {
+/// direction of an edge at the time of the deadlock: in the tree as it is when the run has ended (a deadlocked run is
+/// unwound, nothing is undone), because earlier calls of the same clients may have moved the elements; elements that
+/// are in no model then are looked up in the tree the clients started from
+fn direction_at_deadlock(pre: &View, post: Option<&View>, world: &World, held: (u64, autosar_data::verif::LockClass), wanted: (u64, autosar_data::verif::LockClass)) -> &'static str {
+    if let Some(p) = post {
+        let d = direction(p, world, held, wanted);
+        if !d.ends_with("-new") {
+            return d;
+        }
+    }
+    direction(pre, world, held, wanted)
+}
+
+pub fn edge_sig(view: &View, post: Option<&View>, world: &World, ops: &HashMap<u32, Op>, t: &DlThread) -> Option<String> {
     let op = ops.get(&t.op)?;
     if t.blocking.is_empty() {
         return None;
@@ -506,7 +519,7 @@ pub fn edge_sig(view: &View, world: &World, ops: &HashMap<u32, Op>, t: &DlThread
                 mode_s(h.mode),
                 t.wanted.class,
                 mode_s(t.wanted.mode),
-                direction(view, world, (h.lock, h.class), (t.wanted.id, t.wanted.class))
+                direction_at_deadlock(view, post, world, (h.lock, h.class), (t.wanted.id, t.wanted.class))
             )
         })
         .collect();
@@ -524,7 +537,7 @@ pub fn edge_conforms(edge: &str) -> bool {
     })
 }
 
-pub fn deadlock_sig(view: &View, world: &World, sc: &Scenario, f: &Finding) -> Option<(String, String)> {
+pub fn deadlock_sig(view: &View, post: Option<&View>, world: &World, sc: &Scenario, f: &Finding) -> Option<(String, String)> {
     let mut ops: HashMap<u32, Op> = HashMap::new();
     for c in &sc.clients {
         for (l, o) in c {
@@ -536,7 +549,7 @@ pub fn deadlock_sig(view: &View, world: &World, sc: &Scenario, f: &Finding) -> O
     }
     match f {
         Finding::Deadlock { threads } => {
-            let mut edges: Vec<String> = threads.iter().filter_map(|t| edge_sig(view, world, &ops, t)).collect();
+            let mut edges: Vec<String> = threads.iter().filter_map(|t| edge_sig(view, post, world, &ops, t)).collect();
             edges.sort();
             edges.dedup();
             let detail = threads
